@@ -217,6 +217,16 @@ def run_trunc(case, ctx):
         fam = 'generic'
     Y, info = gen.make_tt(rng, fam, dmax=case['dmax'], nmax=5, rmax=6,
         max_entries=3000)
+    if rng.random() < 0.15 and len(Y) <= 3:
+        # an outer product A x B: an interior bond of rank 1 between two
+        # compressible parts, whose norms are far from 1
+        Y2, info2 = gen.make_tt(rng, 'generic', dmin=2, dmax=3, nmax=4, rmax=4,
+            max_entries=max(4, 3000 // int(np.prod(info['n']))))
+        Y2[0] = Y2[0] * 10.0 ** rng.uniform(-3, 3)
+        Y = Y + Y2
+        info = {'family': 'outer', 'n': info['n'] + info2['n'],
+            'r': info['r'][:-1] + info2['r']}
+        ctx.event('interior-rank-1-bond')
     shape_spectrum(Y, case['spectrum'], rng)
     if rng.random() < 0.6:
         Y[int(rng.integers(len(Y)))] *= 10.0 ** int(rng.integers(-6, 7))
